@@ -218,6 +218,8 @@ def main(argv=None):
         return 3
     plan = dict(plans.PLANS[pid])
     plan['tier'] = tier
+    if tier == 'thorough':
+        os.environ['PYVC_FRESH'] = '1'       # every solver answer is re-decided by a fresh solver
     t0 = time.time()
     _init_worker(pid, tier)
     w = get_world(plan)
@@ -332,6 +334,28 @@ def main(argv=None):
             except Exception as e:
                 rep = {'confirmed': None, 'detail': 'witness crashed: %s' % e}
         confirmed = bool(rep and rep.get('confirmed'))
+        if not confirmed:
+            # no input from the solver model (closure, frame or pre-condition obligation, or a model that
+            # does not replay): bounded native search for a failing input of the function itself or of the
+            # functions enclosing it / named by the plan as its public entry points
+            cands = []
+            parts = j['function'].split('.')
+            for k in range(len(parts), 1, -1):
+                q2 = '.'.join(parts[:k])
+                if q2 in w.contracts and not w.contracts[q2].captures:
+                    cands.append(q2)
+            cands += [c for c in plan.get('entry_points', {}).get(j['function'], []) if c in w.contracts]
+            for q2 in cands:
+                try:
+                    _, _, sv, _, _ = native_crosscheck(w, plan, [q2], seed + 17, 4000, results)
+                except Exception:
+                    sv = []
+                if sv:
+                    rep = {'confirmed': True, 'detail': 'failing input found by native search on %s (clause %s)' % (
+                        q2, sv[0]['clause']), 'inputs': sv[0]['inputs'], 'result': sv[0]['result'],
+                        'solver_model_replay': rep}
+                    confirmed = True
+                    break
         with open(rp, 'w') as fh:
             json.dump({'property': pid, 'obligation': f['label'], 'function': j['function'], 'path': f['path'],
                        'claim': f.get('claim'), 'verifier_output': {'status': 'sat', 'model': f.get('model')},
